@@ -9,7 +9,8 @@
 (***************************************************************************)
 EXTENDS Integers, Sequences, FiniteSets, TLC, Json, InjectionMath
 
-CONSTANTS EmitOn
+CONSTANTS EmitOn,
+          Small      \* TRUE: a quarter of the signal configurations (quick model check)
 
 VARIABLES cad,       \* [starts (seq of start rows), T (seq of rows per frame), F, asc]
           sig,       \* signal configuration (InjectionMath record)
@@ -27,21 +28,24 @@ vars == <<cad, sig, raiseAt, sel, rounds, round, sels, pc, k, off, contrib, exc,
 
 Base == [pathForm |-> "fn", tForm |-> "fn", bpForm |-> "fn", iP |-> FALSE, iT |-> FALSE, iF |-> FALSE,
          tsub |-> 2, fsub |-> 2, smear |-> 0, bnd |-> <<>>, p0 |-> 10, slope |-> 2, curv |-> 0, wd |-> 30]
-Sigs == {[Base EXCEPT !.iP = ip, !.iT = it, !.iF = if, !.smear = sm, !.slope = sl, !.tForm = tf, !.tsub = ts]
+AllSigs == {[Base EXCEPT !.iP = ip, !.iT = it, !.iF = if, !.smear = sm, !.slope = sl, !.tForm = tf, !.tsub = ts]
          : ip \in BOOLEAN, it \in BOOLEAN, if \in BOOLEAN, sm \in {0, 2}, sl \in {2, -1}, tf \in {"fn", "scalar"}, ts \in {2, 3}}
+Sigs == {s \in AllSigs : Small => (s.tsub = 2 /\ s.slope = 2)}
 Cads == {[starts |-> <<0>>, T |-> <<2>>, F |-> 6, asc |-> TRUE],
          [starts |-> <<0, 2>>, T |-> <<2, 3>>, F |-> 6, asc |-> FALSE],             \* back to back
          [starts |-> <<0, 5, 9>>, T |-> <<2, 3, 2>>, F |-> 6, asc |-> TRUE],        \* gaps
          [starts |-> <<3, 4, 11, 12>>, T |-> <<1, 2, 1, 2>>, F |-> 5, asc |-> FALSE]}
 N == Len(cad.starts)
-Members == IF sel = "all" THEN [i \in 1..N |-> i]
+Members == IF sel \in {"all", "direct"} THEN [i \in 1..N |-> i]
            ELSE IF sel = "slice" THEN [i \in 1..(N + 1) \div 2 |-> 2 * i - 1]
            ELSE [i \in 1..N - 1 |-> i + 1]                                          \* cad[1:]
 First == Members[1]
-Rel(i) == cad.starts[i] - cad.starts[First]             \* start time relative to the (sub-)cadence's first frame
+(* start time relative to the (sub-)cadence's first frame; "direct" = every frame injected on its own (Frame.add_signal),
+   i.e. with its own unshifted time axis *)
+Rel(i) == IF sel = "direct" THEN 0 ELSE cad.starts[i] - cad.starts[First]
 
 Init == /\ cad \in Cads /\ sig \in Sigs
-        /\ sel \in {"all", "slice", "tail"} /\ (sel = "tail" => Len(cad.starts) > 1)
+        /\ sel \in {"all", "slice", "tail", "direct"} /\ (sel = "tail" => Len(cad.starts) > 1)
         /\ raiseAt \in 0..Len(cad.starts)
         /\ rounds \in {1, 2} /\ round = 1 /\ sels = <<>>
         /\ pc = "idle" /\ k = 0 /\ off = [i \in 1..4 |-> 0] /\ contrib = [i \in 1..4 |-> <<>>]
@@ -53,9 +57,9 @@ Begin == /\ pc = "idle" /\ hist = <<>> /\ round = 1 /\ Len(Members) >= 1 /\ rais
 
 (* a second injection, possibly into another subset (whose first frame, hence every offset, may differ) *)
 Begin2 == /\ pc = "between" /\ round = 2
-          /\ \E s2 \in {"all", "slice", "tail"} :
+          /\ \E s2 \in {"all", "slice", "tail", "direct"} :
                  /\ (s2 = "tail" => N > 1) /\ sel' = s2
-                 /\ raiseAt <= (IF s2 = "all" THEN N ELSE IF s2 = "slice" THEN (N + 1) \div 2 ELSE N - 1)
+                 /\ raiseAt <= (IF s2 \in {"all", "direct"} THEN N ELSE IF s2 = "slice" THEN (N + 1) \div 2 ELSE N - 1)
           /\ pc' = "shift" /\ k' = 1
           /\ UNCHANGED <<cad, sig, raiseAt, rounds, round, sels, off, contrib, exc, hist>>
 
